@@ -139,11 +139,12 @@ fn make_body(enc: &str, cls: &str, target: Option<usize>, rng: &mut Rng) -> Resu
             }
             "trailing" => {
                 let mut b = doc.clone();
-                let tails: [&[u8]; 5] = [b" 1", b"}", b"x", b" {}", b"]"];
+                // text, structure, and bytes that are not UTF-8 (alone, after white space, a cut multi-byte sequence)
+                let tails: [&[u8]; 9] = [b" 1", b"}", b"x", b" {}", b"]", b"\xff", b" \xfe\xff", b"\xe2\x82", b"\n\xc3"];
                 if enc == "smile" {
-                    b.extend_from_slice(b"zz");
+                    b.extend_from_slice([&b"zz"[..], &b"\xfe"[..], &b"\x00"[..]][(rng.0 % 3) as usize]);
                 } else {
-                    b.extend_from_slice(tails[(rng.0 % 5) as usize]);
+                    b.extend_from_slice(tails[(rng.0 % 9) as usize]);
                 }
                 b
             }
@@ -244,7 +245,7 @@ fn ctype_value(ct: &str, enc: &str, rng: &mut Rng) -> Option<String> {
         }
         "octet" => Some("application/octet-stream".to_string()),
         "wildcard" => Some(["*/*", "application/*"][(rng.0 % 2) as usize].to_string()),
-        "garbage" => Some(["garbage", "", "/", "application/"][(rng.0 % 4) as usize].to_string()),
+        "garbage" => Some(["garbage", "", "/", "application/", "application/js\u{f6}n", " "][(rng.0 % 6) as usize].to_string()),
         _ => None,
     }
 }
@@ -349,7 +350,7 @@ fn server_case(case: &Value) -> Result<Value, String> {
     let chunks = cut(&body, &h, &mut rng, case["random_cut"].as_bool().unwrap_or(false))?;
     let mut headers = HeaderMap::new();
     if let Some(v) = ctype_value(ct, enc, &mut rng) {
-        headers.insert(CONTENT_TYPE, HeaderValue::from_str(&v).map_err(|e| e.to_string())?);
+        headers.insert(CONTENT_TYPE, HeaderValue::from_bytes(v.as_bytes()).map_err(|e| e.to_string())?);
     }
     let runtime = Arc::new(ConjureRuntime::new());
     let pending = flavour == "async-pending";
@@ -449,7 +450,7 @@ fn client_case(case: &Value) -> Result<Value, String> {
         let mut r = Response::new(Script::new(chunks, pending));
         *r.status_mut() = StatusCode::from_u16(status).unwrap();
         if let Some(v) = ctype_value(ct, "json", &mut Rng::new(seed)) {
-            r.headers_mut().insert(CONTENT_TYPE, HeaderValue::from_str(&v).unwrap());
+            r.headers_mut().insert(CONTENT_TYPE, HeaderValue::from_bytes(v.as_bytes()).unwrap());
         }
         r
     };
